@@ -819,7 +819,7 @@ func (r *Decoder) decodeValueNode(ectx evaluationContext, v *jsonldinternal.Expa
 			}
 
 			// apparently explicit datatypes should follow double conventions, too (#te061)
-			if lit.Datatype == xsdiri.Double_Datatype || (datatypeExplicitlySet && hasDecimal) {
+			if lit.Datatype == xsdiri.Double_Datatype || (datatypeExplicitlySet && (hasDecimal || math.Abs(valuePrimitive.Value) >= 1e21)) {
 				sciForm := strconv.FormatFloat(valuePrimitive.Value, 'E', -1, 64)
 				parts := strings.Split(sciForm, "E")
 
